@@ -91,6 +91,15 @@ def case(draw):
     rendered = layout.render(lay)
     state = {'tree': spec, 'mode': 'layout', 'ignores': [],
              'manifests': rendered}
+    profile = draw(st.sampled_from([None, None, None, 'ebuild']))
+    edits = draw(updgen.edits(state, max_ops=3, min_ops=1))
+    if profile:
+        # (a stray file named like a Manifest where the profile starts a
+        # Manifest of its own is C18's business, not a signing matter)
+        edits = [op for op in edits if not os.path.basename(
+            op.get('p', '')).startswith('Manifest')] or [
+            {'op': 'add', 'p': 'added by the harness', 'c': 'x',
+             'm': 1500000000}]
     return {
         'tree': spec, 'manifests': rendered, 'tags': lay['tags'],
         'orig': draw(st.sampled_from(['unsigned', 'signed', 'signed',
@@ -100,7 +109,7 @@ def case(draw):
         'home': draw(st.sampled_from(['full', 'full', 'full', 'pubonly',
                                       'empty'])),
         'api': draw(st.sampled_from(['lib', 'lib', 'cli'])),
-        'edits': draw(updgen.edits(state, max_ops=3, min_ops=1)),
+        'edits': edits,
         'hashes': ['SHA256'],
         'force': draw(st.integers(0, 3)) != 0,
         # a sub-Manifest (referenced from the top-level one) that itself
@@ -113,7 +122,7 @@ def case(draw):
         # CLI: `gemato create` run again over the existing tree
         'cli_cmd': draw(st.sampled_from(['update', 'update', 'create'])),
         # a profile that sorts: signing wraps the same text
-        'profile': draw(st.sampled_from([None, None, None, 'ebuild'])),
+        'profile': profile,
         'top_fmt': draw(st.sampled_from(['', '', '', 'gz', 'xz'])),
         'watermark': draw(st.sampled_from([None, None, 0, 10 ** 6])),
     }
